@@ -800,9 +800,12 @@ def reader_on_model(prog, r):
     from ..objinterp import ObjRunner
     coords = [pdb_line("ATOM", 1, "N", "", "MET", "A", 1, "", 26.8, 41.153, 3.834), pdb_line("HETATM", 2, "O", "", "HOH", "A", 201, "", 1.0, 2.0, 3.0),
               pdb_line("ATOM", 3, "CA", "A", "GLY", "B", -6, "C", -1.5, 0.0, -12.25), pdb_line("ATOM", 4, "OXT", "", "GLY", "B", 7, "", 5.0, 6.0, 7.0),
-              pdb_line("HETATM", 5, "ZN", "", "ZN", "", 300, "", 9.0, 9.0, 9.0)]
+              pdb_line("HETATM", 5, "ZN", "", "ZN", "", 300, "", 9.0, 9.0, 9.0),
+              # values that are unusual but valid: occupancy zero, B factor zero, an atom at the origin, a minor alternate location, every optional column filled
+              pdb_line("ATOM", 6, "CB", "", "ALA", "C", 1, "", 1.0, 1.0, 1.0, occ=0.0), pdb_line("ATOM", 7, "CG", "", "LEU", "C", 2, "", 0.0, 0.0, 0.0, b=0.0),
+              pdb_line("ATOM", 8, "CD1", "B", "LEU", "C", 2, "", -0.001, 2.0, 2.0, occ=0.35), pdb_line("HETATM", 9, "FE", "", "HEM", "C", 9999, "A", 3.0, 3.0, 3.0, seg="HEME", el="FE", ch="2+")]
     lines = ["HEADER    MODEL FILE", "", coords[0], "      ", "FOOBAR an unknown record name", coords[1], "REMARK   1 a remark", "REMARK   1 another remark", coords[2],
-             "TER", coords[3], "END", coords[4], ""]
+             "TER", coords[3], "END", coords[4], ""] + coords[5:]
     fs = FileSystemModel({"model.pdb": "\n".join(lines) + "\n"})
     run = ObjRunner(prog, "pdb.py", extra_hook=fs.hook)
     registry = {}
@@ -823,7 +826,7 @@ def reader_on_model(prog, r):
     if not (isinstance(got, (list, tuple)) and len(got) == 2 and isinstance(got[0], list)):
         raise AnalysisError("read_pdb did not return (records, errors) on the model file")
     serials = [o.get("serial") for o in got[0] if isinstance(o, dict) and o.get("__class__") in ("ATOM", "HETATM")]
-    r.add("reader|model-file", serials == [1, 2, 3, 4, 5] and not {"ATOM", "HETATM"} & set(got[1]),
+    r.add("reader|model-file", serials == list(range(1, len(coords) + 1)) and not {"ATOM", "HETATM"} & set(got[1]),
           f"model file of {len(lines)} lines (blank and whitespace-only lines, an unknown record, remarks, TER, END in the middle): coordinate records returned "
-          f"{serials}, names reported as unparsable {list(got[1])}; expected the five records in file order", where)
+          f"{serials}, names reported as unparsable {list(got[1])}; expected the {len(coords)} records in file order", where)
     return True
